@@ -83,7 +83,7 @@ func (c *Calcium) doCreateWorkloads(ctx context.Context, opts *types.DeployOptio
 		var processingCommits map[string]wal.Commit
 		defer func() {
 			for nodename := range processingCommits {
-				if commit, ok := processingCommits[nodename]; ok {
+				if commit, ok := processingCommits[nodename]; ok && commit != nil {
 					if err := commit(); err != nil {
 						logger.Errorf(ctx, err, "commit wal failed: %s, %s", eventProcessingCreated, nodename)
 					}
